@@ -13,7 +13,10 @@ from ..engine import Outcome, Prop
 from ..model import ebnf
 
 TOKENS = ['NAME', 'NUMBER', 'STRING', 'NEWLINE', 'INDENT', 'DEDENT', 'ENDMARKER']
-STRINGS = ["'a'", "'b'", "'if'", "'else'", "'('", "')'", "'+'", '"*"', "','", "':'", '"x"']
+STRINGS = ["'a'", "'b'", "'if'", "'else'", "'('", "')'", "'+'", '"*"', "','", "':'", '"x"',
+           # other spellings of the same terminals, and terminals that need an escape: a grammar terminal is a Python string
+           # literal, so '\x61', "a" and '\141' are all the keyword a
+           "'\\x61'", '"a"', "'\\141'", '"\\x62"', "'\\''", '"\\""', "'\\\\'", '"if"', "'\\x2b'"]
 
 
 def grammar_files():
@@ -190,12 +193,19 @@ def compare_grammar(text):
             if (a in finals) != b.is_final:
                 return ('automaton-finality', 'rule %s: reference state %d final=%r, generated is_final=%r' % (name, a, a in finals, b.is_final)), info
             mine = {sym: t for (s, sym), t in trans.items() if s == a}
-            if set(mine) != set(b.arcs):
+            spelled = {}
+            for label in b.arcs:
+                canon = repr(ebnf.terminal_key(label)[1]) if label[0] in '"\'' else label
+                if canon in spelled:
+                    return ('one-terminal-two-arcs', 'rule %s state %d: the labels %r and %r are the same terminal but separate arcs '
+                            '(the later one overwrites the transition of the earlier one)' % (name, a, spelled[canon], label)), info
+                spelled[canon] = label
+            if set(mine) != set(spelled):
                 return ('automaton-arcs', 'rule %s state %d: reference arcs %r, generated %r' % (name, a, sorted(mine), sorted(b.arcs))), info
             if b.from_rule != name:
                 return ('state-from-rule', 'rule %s has a state labelled %s' % (name, b.from_rule)), info
             for sym, t in mine.items():
-                todo.append((t, b.arcs[sym]))
+                todo.append((t, b.arcs[spelled[sym]]))
         if {i for _, i in seen} != {id(s) for s in pg}:
             return ('unreachable-generated-state', 'rule %s' % name), info
         pairs[name] = seen
